@@ -16,7 +16,7 @@ import (
 // absolute form of the reference - the result of normalising it against the base of that hop - before it
 // returns. A relative reference must never leave the only function that knows what it is relative to.
 func init() {
-	registerRule("chain-ref-absolute", 2, "the chain dereference, which moves to another base at every hop, leaves the last $ref of a chain in absolute form (normalised against that hop's base) for its callers", ruleChainRefAbsolute)
+	registerRule("chain-ref-absolute", 4, "the chain dereference, which moves to another base at every hop, leaves the last $ref of a chain in absolute form (normalised against that hop's base) for its callers", ruleChainRefAbsolute)
 }
 
 func (c *Ctx) chainDeref(fam *expFamily) *types.Func {
@@ -94,6 +94,32 @@ func ruleChainRefAbsolute(c *Ctx) {
 		}
 		c.ob(rule, fn+":resolver-switch", call.Pos(), good,
 			fn+" follows the next $ref of a chain in another document but with its own resolver: a fragment-only $ref found there is looked up in the document of the receiver (silently the wrong element)")
+		// ... and that resolver is the one for the document the hop just resolved led to: the reference handed to
+		// the switch is the normalised reference computed BEFORE the resolution overwrote the holder (the holder's
+		// own Ref now carries the next hop)
+		if good {
+			var sw *ast.CallExpr
+			switch x := unparen(se.X).(type) {
+			case *ast.CallExpr:
+				sw = x
+			case *ast.Ident:
+				for _, d := range c.localDefs(fd)[c.objOf(x)] {
+					if dc, ok := unparen(d).(*ast.CallExpr); ok {
+						sw = dc
+					}
+				}
+			}
+			targetOK := false
+			if sw != nil {
+				for _, a := range sw.Args {
+					if isNamed(derefType(c.typeOf(a)), c.Types, "Ref") && c.isNormalisedRef(fd, a, nil, 0) {
+						targetOK = true
+					}
+				}
+			}
+			c.ob(rule, fn+":resolver-switch-target", call.Pos(), targetOK,
+				"the resolver for the next hop is chosen from the holder's own $ref, which the resolution has just overwritten with the NEXT reference of the chain, instead of the normalised reference of the hop that was followed: a fragment-only alias inside an imported document is looked up in the wrong document")
+		}
 		return true
 	})
 	// the pointer(s) to the Ref of the input: local *Ref variables
@@ -151,6 +177,7 @@ func ruleChainRefAbsolute(c *Ctx) {
 		return false
 	}
 	stored := false
+	var storeStmt *ast.AssignStmt
 	ast.Inspect(fd.Body, func(n ast.Node) bool {
 		as, ok := n.(*ast.AssignStmt)
 		if !ok || len(as.Lhs) != 1 || len(as.Rhs) != 1 {
@@ -162,9 +189,72 @@ func ruleChainRefAbsolute(c *Ctx) {
 		}
 		if fromNormalised(as.Rhs[0], 0) {
 			stored = true
+			storeStmt = as
 		}
 		return true
 	})
+	// the store happens for every hop but the first: a condition on the length of the parent stack may only
+	// exclude the empty stack
+	if storeStmt != nil {
+		good, why := true, ""
+		for _, cl := range c.literalsAt(fd, storeStmt) {
+			be, ok := unparen(cl.e).(*ast.BinaryExpr)
+			if !ok {
+				continue
+			}
+			call, ok := unparen(be.X).(*ast.CallExpr)
+			if !ok || !c.isBuiltin(call, "len") || len(call.Args) != 1 {
+				continue
+			}
+			if sl, isSl := c.typeOf(call.Args[0]).Underlying().(*types.Slice); !isSl || !isStringType(sl.Elem()) {
+				continue
+			}
+			rv, ok := c.Info.Types[be.Y]
+			if !ok || rv.Value == nil {
+				continue
+			}
+			k, isInt := constInt(rv.Value.String())
+			if !isInt {
+				continue
+			}
+			op := be.Op
+			if cl.neg {
+				switch op {
+				case token.GTR:
+					op = token.LEQ
+				case token.GEQ:
+					op = token.LSS
+				case token.LSS:
+					op = token.GEQ
+				case token.LEQ:
+					op = token.GTR
+				case token.EQL:
+					op = token.NEQ
+				case token.NEQ:
+					op = token.EQL
+				}
+			}
+			admits1 := true // a stack of exactly one parent (the second hop) must be admitted
+			switch op {
+			case token.GTR:
+				admits1 = 1 > k
+			case token.GEQ:
+				admits1 = 1 >= k
+			case token.LSS:
+				admits1 = 1 < k
+			case token.LEQ:
+				admits1 = 1 <= k
+			case token.EQL:
+				admits1 = k == 1
+			case token.NEQ:
+				admits1 = k != 1
+			}
+			if !admits1 {
+				good, why = false, "the absolute form is stored only when "+exprString(cl.e)+": the second hop of a chain (one parent on the stack) is left out, and a two-hop chain hands its callers a $ref relative to a document they do not know"
+			}
+		}
+		c.ob(rule, fn+":every-hop-after-the-first", storeStmt.Pos(), good, why)
+	}
 	c.ob(rule, fn, fd.Pos(), stored,
 		fn+" calls itself with another base at every hop but never stores the normalised (absolute) form of the reference it leaves behind: its callers read the last $ref of a multi-hop chain relative to the base they started from, i.e. in the wrong document")
 }
@@ -181,7 +271,7 @@ func ruleChainRefAbsolute(c *Ctx) {
 // this very id has produced: it keeps a record base -> id, consults it before normalising, and returns the
 // base unchanged on a hit.
 func init() {
-	registerRule("id-once", 3, "a schema id is never applied to a base path that the same id has already produced (otherwise a $ref back to the id's own location grows the base at every unfolding and the cycle cut never fires)", ruleIDOnce)
+	registerRule("id-once", 4, "a schema id is never applied to a base path that the same id has already produced (otherwise a $ref back to the id's own location grows the base at every unfolding and the cycle cut never fires)", ruleIDOnce)
 }
 
 func ruleIDOnce(c *Ctx) {
@@ -305,6 +395,36 @@ func ruleIDOnce(c *Ctx) {
 	})
 	c.ob(rule, fn+":record", helper.Pos(), recorded,
 		fn+" does not record which id produced the new base path, so a later re-application of the same id cannot be recognised")
+	// (2b) past the guard the schema is registered unconditionally: a registration that depends on what the cache
+	// already holds makes the result of one call depend on an earlier one
+	ast.Inspect(helper.Body, func(n ast.Node) bool {
+		call, ok := n.(*ast.CallExpr)
+		if !ok || len(call.Args) != 2 {
+			return true
+		}
+		if _, name, _, isM := c.calleeMethod(call); !isM || name != "Set" {
+			return true
+		}
+		if id, ok := unparen(call.Args[0]).(*ast.Ident); !ok || c.objOf(id) != keyVar {
+			return true
+		}
+		always := true
+		for _, cl := range c.literalsAt(helper, call) {
+			// the negated id-record guard is the only condition allowed
+			if be, ok := unparen(cl.e).(*ast.BinaryExpr); ok && cl.neg && be.Op == token.EQL {
+				if ix, ok := unparen(be.X).(*ast.IndexExpr); ok && isObj(ix.Index, baseParam) {
+					continue
+				}
+				if ix, ok := unparen(be.Y).(*ast.IndexExpr); ok && isObj(ix.Index, baseParam) {
+					continue
+				}
+			}
+			always = false
+		}
+		c.ob(rule, fn+":registers-always", call.Pos(), always,
+			"the id-scoped schema is registered only under a condition (for instance when nothing is cached at that location yet): with a cache kept across calls a $ref through the id reaches the schema of an earlier root")
+		return true
+	})
 	// (3) the record is written nowhere else
 	if recField != nil {
 		var others []string
